@@ -58,6 +58,18 @@ DAEMON_ASSUME = ("end-to-end stage: the built binary is fed through two real FIF
                  "established by a sentinel session written last (both pipelines are sequential)")
 
 
+READER_ASSUME = ("end-to-end stage, reader-level input classes (harness/daemon/reader.go, every fourth scenario): records of 4 KiB / 8 KiB / 64 KiB / 128 KiB "
+                 "(at, just around and well beyond the size) on both pipes - unrecognised sshd lines whose body is, behind every 128-byte boundary of the record, a complete "
+                 "accepted-login message for another session's sshd PID (nothing must come of them), certificate logins with key ids of that length (the whole key id is the "
+                 "event's userID), EXECVE records of 4-9 KiB and some of 20-70 KiB, PATH records whose executable path is 4-9 KiB long (rendered as the library renders the text written: C14's e2e:render); bursts of hundreds of "
+                 "records in one write(2), beyond one page and beyond the pipe's capacity; a writer of the sshd pipe that closes in the middle of an accepted-login record: the "
+                 "daemon may end (end-of-stream is a failure by design: observed as 'no reader on the FIFO any more' or the process' exit; the oracles then apply to what was written before) or - still holding the pipe open 5 s later - go on with the next writer, whose records - the complete "
+                 "login of another process, then the first process' own - must then yield exactly their events and the first process' audit session exactly its identity. Stated, not "
+                 "proved: bytes a writer left unterminated when it closed are not a record and not part of the next writer's first record. C06 / C11 on this stage: the six message forms "
+                 "of the daemon generator (accepted password / publickey / certificate, failed password, invalid user, maximum attempts), expected fields by construction; a UserLogin that "
+                 "no recognised line written yields is reported for both")
+
+
 def conc_extra(pid, n_quick=5, n_thorough=60):
     """Concurrent stage: forced single-preemption schedules on the real correlator under the race detector,
     judged by the property's own oracle on the final outcome."""
@@ -103,7 +115,9 @@ def tracker(pid, n_quick=160, n_thorough=3000):
 for _p in ("C01", "C02", "C04", "C09", "C16"):
     tracker(_p)
 
+SPECS["C01"].search_extra = [("daemon", {}, ["-prop", "C01", "-n", "160"], False)]
 SPECS["C01"].assumptions = SPECS["C01"].assumptions + [
+    READER_ASSUME,
     "which sshd PID a login carries is part of C01's obligations: C01_login_pid_is_record_first_column / C01_tracker_login_pid_is_record_first_column / "
     "C01_framed_record_login (Proofs/RecordLogin.v) compose the translations regenerated from SyslogIngester.Process / ParseSyslogMessage (Gen/PureFuncs.v) and "
     "ProcessSshdLogEntry (Gen/EntryMetrics.v) with the sshd model: for every record, a forwarded login carries strconv.Atoi of the record's first column; the "
@@ -160,6 +174,12 @@ def sshd(pid, n_quick=360, n_thorough=6000):
     extra = daemon_extra(pid) if pid == "C07" else []
     search_extra = []
     assume = list(SSHD_ASSUME)
+    if pid in ("C06", "C11"):
+        # round 7: the property's statement is about what the DAEMON emits for the lines on its pipe; the reader between pipe and
+        # processor is covered by <ID>_records_reach_processor_unchanged (obligation) and by the daemon stage (failing inputs)
+        extra = daemon_extra(pid, 12, 240)
+        search_extra = [("daemon", {}, ["-prop", pid, "-n", "120"], False)]
+        assume += [DAEMON_ASSUME, READER_ASSUME]
     if pid == "C07":
         extra = extra + [("sshd", {}, stalled_writer(pid, [200, 600, 1200, 2500, 5500, 11000], 4), False, stalled_writer(pid, [200, 600, 1200]))]
         search_extra = [("sshd", {}, stalled_writer(pid, [2500, 5500, 11000, 31000]), False)]
@@ -274,6 +294,10 @@ reg(Spec(
 
 reg(Spec(
     "C14", "Props/C14.v", harness="render",
+    # round 7: the records reach the processor through the daemon's pipe reader (C14_records_reach_processor_unchanged); daemon stage: every
+    # UserAction of the built daemon's events file against the library's rendering of the record group written (harness/daemon/render.go)
+    thorough_extra=daemon_extra("C14", 12, 240),
+    search_extra=[("daemon", {}, ["-prop", "C14", "-n", "120"], False)],
     overlay={"processors/auditd/sessiontracker/verif_export.go": "harness/overlay/sessiontracker_verif.go",
              "processors/auditd/verif_export.go": "harness/overlay/auditd_verif.go"},
     args_quick=["-n", "150"], args_thorough=["-n", "1500"], args_search=["-n", "800"],
@@ -281,6 +305,7 @@ reg(Spec(
         "go-libaudit (ParseLogLine, Reassembler, CoalesceMessages, ResolveIDs) is not modelled: the model starts at the coalesced event; the library is the oracle for action/how/object and the argument list",
         "identity content = subjects, source{type,value,extra}, target as key-sorted association lists; JSON omitempty makes empty and absent equal",
         "non-mutation of the stored Go login object is checked by deep-copy comparison in the harness (a correspondence obligation), the model-level statement is C14_non_mutation",
+        DAEMON_ASSUME, READER_ASSUME,
     ],
     modelled=["sessiontracker.go: user.toAuditEvent, writeAndClearCache", "reassembler_callback.go: ReassemblyComplete (exercised, library parts as oracle)"],
     extra_targets=["Model/ToEventCheck.vo"],
@@ -299,6 +324,11 @@ reg(Spec("C13", "Props/C13.v", harness="workers", overlay={},
       "the leaked opener goroutine and a Maintain() call in flight while Read closes the reassembler are not modelled",
       "'its context' of the sshd-side worker is the context handed to Ingest / Process / ProcessSshdLogEntry, not the one NewSshdProcessor was configured with (scenarios child-ctx/*: only the former is cancelled); on the built binary it is the errgroup's context, cancelled by a sibling's failure while the process context lives on (sibling-failure/*: racy, repeated 5/12/20 times per variant)"],
     modelled=WORKERS_MODELLED, extra_targets=["Model/ErrgroupCheck.vo"]))
+SPECS["C13"].assumptions = SPECS["C13"].assumptions + [
+    "state 'blocked reading an idle pipe' also with an UNTERMINATED PARTIAL RECORD in the read buffer (harness/workers/c13_partial.go, scenarios partial-record/*): the writer has sent the beginning of a record "
+    "and pauses, the reader has consumed it (observed: FIONREAD on the pipe = 0), then the context is cancelled - with every downstream state: the audit line channel of capacity 0 / 1 / 3 / 16 full and its consumer "
+    "stopped, or empty; sshd side: the partial record already is a recognisable accepted-login line of each hand-off form (only its newline is missing) or is cut in the middle, unbuffered logins channel nobody "
+    "receives from, processor configured on the worker's context or on a longer-lived one; the worker must return within 2 s and deliver nothing afterwards"]
 reg(Spec("C08", "Props/C08.v", harness="workers", overlay={},
     args_quick=["-prop", "C08"],
     args_thorough=["-prop", "C08", "-n", "3"],
@@ -343,6 +373,10 @@ SPECS["C03"].assumptions = SPECS["C03"].assumptions + [
 SPECS["C08"].thorough_extra = SPECS["C08"].thorough_extra + [
     ("auditproc", AUDITPROC_OVERLAY, ["-mode", "cancelfull", "-n", "4"], False, ["-mode", "cancelfull", "-n", "1"])]
 SPECS["C08"].assumptions = SPECS["C08"].assumptions + [
+    "binary scenarios, a pipe worker still waiting for its FIRST writer (harness/workers/c08_openwait.go, variants open-wait/<pipe>/<disturbance>): one of the two FIFOs never gets a writer, so its worker is parked in "
+    "open(2) (observed in /proc/<pid>/task/*/syscall of the child where readable, otherwise given 300 ms); while it waits the FIFO's directory entry is left alone / renamed away and re-created / removed / replaced "
+    "by a regular file; then every stop cause that does not need that pipe (end-of-stream or an unparsable record on the other pipe, a login the correlator refuses, an event write failure, SIGTERM, SIGINT): exit within "
+    "5 s, non-zero on a failure. Not run: a FIFO made unwritable for the daemon's user (the harness runs as root, for which mode bits do not apply)",
     "binary scenarios, the audit side failing while the sshd side hands logins over (harness/workers/c08_handoff.go): a login the correlator rejects, an unparsable audit line, "
     "audit-pipe end-of-stream and the events sink breaking under a stream of session events, each injected while accepted logins of all four forms arrive on the sshd pipe - in ONE "
     "write with / right before the fault (burst: 360 lines, no waiting in between) or from a writer that keeps the pipe full (flood: fault 20-60 ms after events flow; racy, twice per "
@@ -482,6 +516,24 @@ for _p in ("C06", "C11", "C17"):
     SPECS[_p].modelled = SPECS[_p].modelled + ["Go regexp (FindStringSubmatchIndex / MatchString) on the flat patterns: Lib/Regex.v, hand-written, PROVED against Model/RegexSpec.v, tied by stage prims -mode regex"]
     SPECS[_p].extra_targets = SPECS[_p].extra_targets + ["Model/PrimsCheck.vo"]
 SPECS["C07"].thorough_extra = SPECS["C07"].thorough_extra + prims_strings("C07")
+
+
+# C07 with a slow CONSUMER of logins (round 7; harness/workers/c07_slow.go): the same (pid, message) handed over directly, through
+# SyslogIngester.Process and through a real FIFO + SyslogIngester.Ingest while nobody receives from the unbuffered logins channel
+# for the given time; all cases run concurrently, the stage lasts about as long as its longest delay
+def slow_consumer(delays):
+    return ["-prop", "C07", "-delays", ",".join(str(d) for d in delays)]
+
+
+SPECS["C07"].thorough_extra = SPECS["C07"].thorough_extra + [
+    ("workers", {}, slow_consumer([150, 1500, 2500, 4500, 6500, 12000, 31000]), False, slow_consumer([150, 700, 2500, 4500]))]
+SPECS["C07"].search_extra = SPECS["C07"].search_extra + [("workers", {}, slow_consumer([2500, 6500, 12000, 31000, 61000]), False)]
+SPECS["C07"].assumptions = SPECS["C07"].assumptions + [
+    "slow-consumer stage (harness/workers/c07_slow.go): framed = direct also when the consumer of logins is slow - each login form of the four hand-off selects, a failure line and an unrecognised line, "
+    "handed to ProcessSshdLogEntry directly, to SyslogIngester.Process, and written to a real FIFO read by SyslogIngester.Ingest, each with a processor and an unbuffered logins channel of its own from which "
+    "nobody receives for 0.15 / 0.7 / 2.5 / 4.5 s (quick), up to 31 s (thorough), up to 61 s (search after a broken obligation); the framed paths must yield the direct path's events (without timestamp and the "
+    "event's random id) and forwarded logins and return what it returns; a path that has not dealt with the record 10 s after the consumer started is a failure; real time is an input, the oracle waits for the paths to return",
+    READER_ASSUME]
 SPECS["C07"].assumptions = SPECS["C07"].assumptions + PRIMS_STRINGS_ASSUME
 SPECS["C07"].modelled = SPECS["C07"].modelled + ["package strings (HasPrefix HasSuffix TrimPrefix TrimSuffix Index Cut Split Join TrimLeft), string <, indexing/slicing panics, uint64/int32 arithmetic, strconv.Atoi: Lib/GoStrings.v + Model/SshdProc.atoi, hand-written, tied by stage prims -mode strings"]
 SPECS["C07"].extra_targets = SPECS["C07"].extra_targets + ["Model/PrimsCheck.vo"]
